@@ -26,10 +26,12 @@ RemoveInExec(k) == \E j \in start..ExecEnd(l) : Log[j].e = "Remove" /\ Log[j].k 
 Obs_RemoveRacesSlowPath(k) == RemoveInExec(k)
 \* cleanup(d) with d * rate >= burst evicts only full buckets when it is atomic (a bucket idle for more than d seconds is full), so it is
 \* invisible - but its two passes are not atomic: a bucket drawn from between "collect" and "erase" is erased all the same and re-created
-\* full.  Named deviation Obs_CleanupEvictsBusyBucket: executions with a Cleanup are exempt from the bound (the check counts and reports
-\* the executions in which the bound is in fact exceeded).
-CleanupInExec == \E j \in start..ExecEnd(l) : Log[j].e = "Cleanup"
-Obs_CleanupEvictsBusyBucket == CleanupInExec
+\* full.  Named deviation Obs_CleanupEvictsBusyBucket(k), observation O-26b: a key is exempt from the bound only if ANOTHER caller was
+\* granted tokens of it during the very second(s) a cleanup() call was in progress (the check counts the executions in which the bound is
+\* in fact exceeded).
+Obs_CleanupEvictsBusyBucket(k) == \E i \in start..ExecEnd(l) : \E j \in start..ExecEnd(l) :
+    /\ Log[i].e = "Cleanup" /\ Log[j].e = "Consume" /\ Log[j].k = k /\ Log[j].ok
+    /\ Log[j].t # Log[i].t /\ Log[j].t0 <= Log[i].t1 /\ Log[i].t0 <= Log[j].t1
 EvConsume == /\ IsEv("Consume") /\ Ev.k \in Keys /\ Ev.t0 <= Ev.t1 /\ Ev.n >= 1
              /\ tmax' = Max(tmax, Ev.t1)
              /\ grants' = IF Ev.ok THEN Append(grants, <<Ev.k, Ev.t0, Ev.t1, Ev.n>>) ELSE grants
@@ -52,7 +54,7 @@ SumIn(k, s, u, i) == IF i > Len(grants) THEN 0
                      ELSE (IF grants[i][1] = k /\ grants[i][2] >= s /\ grants[i][3] <= u THEN grants[i][4] ELSE 0) + SumIn(k, s, u, i + 1)
 EvRemove == IsEv("Remove") /\ ~exact /\ Ev.k \in Keys /\ UNCHANGED <<rate, burst, exact, tok, last, grants, tmax, start>>
 EvCleanup == IsEv("Cleanup") /\ ~exact /\ Ev.d * rate >= burst /\ UNCHANGED <<rate, burst, exact, tok, last, grants, tmax, start>>
-BoundOk == Obs_CleanupEvictsBusyBucket \/ \A k \in Keys : RemoveInExec(k) \/ \A s \in 0..tmax : \A u \in s..tmax : SumIn(k, s, u, 1) <= burst + rate * (u - s)
+BoundOk == \A k \in Keys : RemoveInExec(k) \/ Obs_CleanupEvictsBusyBucket(k) \/ \A s \in 0..tmax : \A u \in s..tmax : SumIn(k, s, u, 1) <= burst + rate * (u - s)
 EvEnd == IsEv("End") /\ BoundOk /\ UNCHANGED <<rate, burst, exact, tok, last, grants, tmax, start>>
 Next == EvBegin \/ EvReset \/ EvRemove \/ EvCleanup \/ EvConsume \/ EvAvail \/ EvWait \/ EvEnd
 Spec == Init /\ [][Next]_vars
